@@ -230,9 +230,9 @@ MUTANTS += [
                 if entry_point is not node]
 """, "", 'revert 42b31a0 (entry-point side)'),
     ('fixrev_attacker_id0', ['C09'], AG,
-     """        attacker.id = attacker_id if attacker_id is not None \\
+     """        new_id = attacker_id if attacker_id is not None \\
             else self.next_attacker_id""",
-     """        attacker.id = attacker_id or self.next_attacker_id""", 'revert 3cdce99'),
+     """        new_id = attacker_id or self.next_attacker_id""", 'revert 3cdce99'),
     ('fixrev_remove_attacker_iter', ['C11'], AG,
      "        for node in list(attacker.reached_attack_steps):\n            attacker.undo_compromise(node)",
      "        for node in attacker.reached_attack_steps:\n            attacker.undo_compromise(node)",
